@@ -121,6 +121,17 @@ func (a c16api) ins(op string, ops ...operand.Op) {
 		f2 = pick2(a.pkg, build.XORQ, a.ctx.XORQ)
 	case "XORL":
 		f2 = pick2(a.pkg, build.XORL, a.ctx.XORL)
+	case "MOVOU":
+		f2 = pick2(a.pkg, build.MOVOU, a.ctx.MOVOU)
+	case "VMOVDQU":
+		f2 = pick2(a.pkg, build.VMOVDQU, a.ctx.VMOVDQU)
+	case "CALL":
+		if a.pkg {
+			build.CALL(ops[0])
+		} else {
+			a.ctx.CALL(ops[0])
+		}
+		return
 	default:
 		panic("c16: opcode " + op)
 	}
@@ -248,16 +259,16 @@ func c16gen(r *rng) c16case {
 }
 
 type c16result struct {
-	panicked  bool
-	err       bool
-	mems      []operand.Mem
-	flags     []bool // per instr op: writes BP (generator's view)
-	scanClob  bool   // compiled instructions write a BP view
-	before    int
-	frame     int
-	text      string
-	allocBP   bool
-	asm       []byte
+	panicked bool
+	err      bool
+	mems     []operand.Mem
+	flags    []bool // per instr op: writes BP (generator's view)
+	scanClob bool   // compiled instructions write a BP view
+	before   int
+	frame    int
+	text     string
+	allocBP  bool
+	asm      []byte
 }
 
 // c16run drives the real code on one case (one function in a context of its own).
@@ -516,12 +527,14 @@ func c16positions(size int, r *rng) []int {
 }
 
 type c16cpuFn struct {
-	name   string
-	sizes  []int
-	mems   []operand.Mem
-	pos    [][]int
-	nbytes int
-	clob   bool
+	name     string
+	sizes    []int
+	mems     []operand.Mem
+	pos      [][]int
+	nbytes   int
+	clob     bool
+	forced   bool
+	writesBP bool // the compiled function writes BP
 }
 
 func c16cpu(dir string, n int, r *rng, o *out, st map[string]int) error {
@@ -543,6 +556,8 @@ func c16cpu(dir string, n int, r *rng, o *out, st map[string]int) error {
 		ctx.SignatureExpr("func(out *byte)")
 		nl := r.intn(7)
 		f.clob = r.chance(1, 2)
+		// a third of the others: no BP write in the source, but 15 simultaneously live values force the allocator onto BP
+		f.forced = !f.clob && r.chance(1, 2)
 		clobAt := r.intn(nl + 1)
 		var deferred []int
 		write := func(j int) {
@@ -583,7 +598,7 @@ func c16cpu(dir string, n int, r *rng, o *out, st map[string]int) error {
 			f.sizes = append(f.sizes, size)
 			f.mems = append(f.mems, ctx.AllocLocal(size))
 			f.pos = append(f.pos, c16positions(size, r))
-			if r.chance(1, 2) {
+			if !f.forced && r.chance(1, 2) {
 				write(j)
 			} else {
 				deferred = append(deferred, j)
@@ -603,6 +618,30 @@ func c16cpu(dir string, n int, r *rng, o *out, st map[string]int) error {
 			f.mems = append(f.mems, ctx.AllocLocal(pad))
 			f.pos = append(f.pos, c16positions(pad, r))
 			deferred = append(deferred, len(f.mems)-1)
+		}
+		if f.forced {
+			// all locals exist and none has been written: 15 values, each stored into some local while all are live
+			vs := make([]reg.GPVirtual, 15)
+			for i := range vs {
+				vs[i] = ctx.GP64()
+				ctx.MOVQ(operand.U32(uint32(0x0101*(i+1))), vs[i])
+			}
+			for i, v := range vs {
+				if len(f.mems) == 0 {
+					break
+				}
+				j := r.intn(len(f.mems))
+				switch sz := f.sizes[j]; {
+				case sz >= 8:
+					ctx.MOVQ(v, f.mems[j].Offset(r.intn(sz-7)))
+				case sz >= 1:
+					ctx.MOVB(v.As8(), f.mems[j].Offset(r.intn(sz)))
+				}
+				_ = i
+			}
+			for i := 1; i < len(vs); i++ {
+				ctx.ADDQ(vs[i], vs[0])
+			}
 		}
 		// write the remaining locals in a random order
 		for len(deferred) > 0 {
@@ -633,6 +672,18 @@ func c16cpu(dir string, n int, r *rng, o *out, st map[string]int) error {
 	if err := pass.Compile.Execute(file); err != nil {
 		return fmt.Errorf("cpu: compile: %v", err)
 	}
+	for k, fn := range file.Functions() {
+		if k >= len(fns) {
+			break
+		}
+		for _, i := range fn.Instructions() {
+			for _, o := range i.OutputRegisters() {
+				if p := reg.ToPhysical(o); p != nil && p.Kind() == reg.KindGP && p.PhysicalIndex() == reg.RBP.PhysicalIndex() {
+					fns[k].writesBP = true
+				}
+			}
+		}
+	}
 	cfg := printer.Config{Name: "avoh", Pkg: "main"}
 	asm, err := printer.NewGoAsm(cfg).Print(file)
 	if err != nil {
@@ -647,39 +698,108 @@ func c16cpu(dir string, n int, r *rng, o *out, st map[string]int) error {
 
 import (
 	"fmt"
+	"runtime"
 	"runtime/debug"
 )
 
-func getbp() uintptr
+func c16tramp(fn uintptr, out *byte, res *[3]uintptr)
+func c16fnaddr(i int) uintptr
 
-// call runs f twice: the first call grows the goroutine stack if the frame
-// needs it (moving the stack changes BP), the second is the measured one.
+//go:noinline
+func c16grow(n int) int {
+	var pad [1024]byte
+	if n == 0 {
+		return int(pad[0])
+	}
+	return c16grow(n-1) + int(pad[n%1024])
+}
+
+// call runs function i twice through the assembly trampoline: the first call grows the goroutine stack if the
+// frame needs it (moving the stack changes BP), the second is the measured one.  The trampoline CALLs the ABI0
+// entry directly (no compiler-generated wrapper that would save and restore BP around the call), records BP right
+// before and right after the CALL and checks canary words in its own frame above the callee's argument.
 //
 //go:noinline
-func call(f func(*byte), buf []byte) bool {
-	f(&buf[0])
-	for i := range buf {
-		buf[i] = 0
+func call(i int, buf []byte) string {
+	var res [3]uintptr
+	c16tramp(c16fnaddr(i), &buf[0], &res)
+	for k := range buf {
+		buf[k] = 0
 	}
-	b1 := getbp()
-	f(&buf[0])
-	b2 := getbp()
-	return b1 == b2
+	c16tramp(c16fnaddr(i), &buf[0], &res)
+	switch {
+	case res[2] != 0:
+		return "canary"
+	case res[0] != res[1]:
+		return "0"
+	}
+	return "1"
 }
 
 func main() {
+	runtime.LockOSThread()
 	debug.SetGCPercent(-1)
+	c16grow(96) // pre-grow the stack
 `)
 	for i, f := range fns {
-		fmt.Fprintf(&mainsrc, "\t{\n\t\tbuf := make([]byte, %d)\n\t\tok := call(%s, buf)\n\t\tfmt.Printf(\"%d %%v %%x\\n\", ok, buf[:%d])\n\t}\n", f.nbytes+1, f.name, i, f.nbytes)
+		fmt.Fprintf(&mainsrc, "\t{\n\t\tbuf := make([]byte, %d)\n\t\tok := call(%d, buf)\n\t\tfmt.Printf(\"%d %%v %%x\\n\", ok, buf[:%d])\n\t}\n", f.nbytes+1, i, i, f.nbytes)
 	}
 	mainsrc.WriteString("}\n")
+	var tramp bytes.Buffer
+	tramp.WriteString(`#include "textflag.h"
+#include "funcdata.h"
+
+// func c16tramp(fn uintptr, out *byte, res *[3]uintptr)
+// frame: 0(SP) the callee's argument, 8(SP) BP before the call, 16..48(SP) canaries.  After the call only SP-relative
+// addressing is used (FP is resolved relative to SP), so a callee that destroys BP cannot mislead the measurement.
+TEXT ·c16tramp(SB), $56-24
+	NO_LOCAL_POINTERS
+	MOVQ out+8(FP), AX
+	MOVQ AX, 0(SP)
+	MOVQ $0x5ca1ab1e0ddba115, AX
+	MOVQ AX, 16(SP)
+	MOVQ AX, 24(SP)
+	MOVQ AX, 32(SP)
+	MOVQ AX, 40(SP)
+	MOVQ AX, 48(SP)
+	MOVQ fn+0(FP), AX
+	MOVQ BP, 8(SP)
+	CALL AX
+	MOVQ BP, CX
+	MOVQ res+16(FP), DX
+	MOVQ 8(SP), BX
+	MOVQ BX, 0(DX)
+	MOVQ CX, 8(DX)
+	MOVQ $0x5ca1ab1e0ddba115, AX
+	MOVQ 16(SP), SI
+	XORQ AX, SI
+	MOVQ 24(SP), DI
+	XORQ AX, DI
+	ORQ DI, SI
+	MOVQ 32(SP), DI
+	XORQ AX, DI
+	ORQ DI, SI
+	MOVQ 40(SP), DI
+	XORQ AX, DI
+	ORQ DI, SI
+	MOVQ 48(SP), DI
+	XORQ AX, DI
+	ORQ DI, SI
+	MOVQ SI, 16(DX)
+	RET
+
+`)
+	for i, f := range fns {
+		fmt.Fprintf(&tramp, "DATA c16tab<>+%d(SB)/8, $·%s(SB)\n", 8*i, f.name)
+	}
+	fmt.Fprintf(&tramp, "GLOBL c16tab<>(SB), RODATA|NOPTR, $%d\n", 8*len(fns))
+	tramp.WriteString("\n// func c16fnaddr(i int) uintptr\nTEXT ·c16fnaddr(SB), NOSPLIT, $0-16\n\tMOVQ i+0(FP), BX\n\tLEAQ c16tab<>(SB), AX\n\tMOVQ (AX)(BX*8), AX\n\tMOVQ AX, ret+8(FP)\n\tRET\n")
 	files := map[string][]byte{
-		"go.mod":      []byte("module c16cpu\n\ngo 1.21\n"),
-		"locals.s":    asm,
-		"stubs.go":    stubs,
-		"main.go":     mainsrc.Bytes(),
-		"getbp.s":     []byte("#include \"textflag.h\"\n\n// func getbp() uintptr\nTEXT ·getbp(SB), NOSPLIT|NOFRAME, $0-8\n\tMOVQ BP, ret+0(FP)\n\tRET\n"),
+		"go.mod":   []byte("module c16cpu\n\ngo 1.21\n"),
+		"locals.s": asm,
+		"stubs.go": stubs,
+		"main.go":  mainsrc.Bytes(),
+		"tramp.s":  tramp.Bytes(),
 	}
 	for name, data := range files {
 		if err := os.WriteFile(filepath.Join(dir, name), data, 0o644); err != nil {
@@ -720,7 +840,7 @@ func main() {
 			// crashed before reaching this function (corrupted stack): report as bp not preserved
 			req = append(req, "crash")
 		} else {
-			req = append(req, c16b(g[0] == "true"))
+			req = append(req, g[0]) // 1: BP preserved and canaries intact, 0: BP changed, canary: caller's frame overwritten
 		}
 		var data []byte
 		if ok && len(g) > 1 {
@@ -747,6 +867,12 @@ func main() {
 		st["cpu_locals"] += len(f.mems)
 		if f.clob {
 			st["cpu_bp_clobbering"]++
+		}
+		if f.forced && f.writesBP {
+			st["cpu_bp_forced_by_allocator"]++
+		}
+		if f.writesBP && len(f.mems) > 0 {
+			st["cpu_bp_written_with_locals"]++
 		}
 	}
 	if rerr != nil {
@@ -780,6 +906,9 @@ func init() {
 		f := newStdFlags("c16")
 		cpu := f.fs.Int("cpu", 0, "number of functions executed on the CPU")
 		cpudir := f.fs.String("cpudir", "cpu", "scratch directory of the measured part")
+		nfinal := f.fs.Int("final", -1, "number of files of the `final` stream (compiled and printed functions); -1: n/3")
+		nasm := f.fs.Int("asm", 0, "number of generated files that are assembled and disassembled")
+		asmdir := f.fs.String("asmdir", "asm", "scratch directory of the assembled files")
 		if err := f.fs.Parse(args); err != nil {
 			return err
 		}
@@ -798,6 +927,8 @@ func init() {
 			for _, l := range lines {
 				if c, ok := c16parse(l); ok {
 					c16emitCase(o, c, c16run(c, r), st)
+				} else if s, ok := c16fParse(l); ok {
+					c16fEmit(o, s, c16fRun([]c16fSpec{s}, false)[0], st)
 				}
 			}
 			return writeJSON(*f.stats, st)
@@ -850,6 +981,53 @@ func init() {
 			default:
 				c := c16gen(r)
 				c16emitCase(o, c, c16run(c, r), st)
+			}
+		}
+		// the functions as they are finally compiled and printed (c16final.go)
+		if *nfinal < 0 {
+			*nfinal = *f.n / 3
+		}
+		rf := r.fork()
+		for k := 0; k < *nfinal; k++ {
+			nfn := 1
+			if rf.chance(2, 5) {
+				nfn = 2 + rf.intn(3)
+			}
+			specs := make([]c16fSpec, nfn)
+			for i := range specs {
+				specs[i], _ = c16fGen(rf, false)
+				if nfn > 1 && specs[i].noframe {
+					// a NOFRAME function writing BP makes Compile refuse the WHOLE file: single-function files only
+					for _, op := range specs[i].ops {
+						if !op.alloc && (op.in.kind == 'b' || op.in.kind == 'p') {
+							specs[i].noframe = false
+						}
+					}
+				}
+			}
+			pkg := rf.chance(1, 4)
+			for i, res := range c16fRun(specs, pkg) {
+				c16fEmit(o, specs[i], res, st)
+				if nfn > 1 {
+					st["final_multi_function_file_functions"]++
+				}
+				if pkg {
+					st["final_package_level_route_functions"]++
+				}
+			}
+		}
+		if *nasm > 0 {
+			if err := os.RemoveAll(*asmdir); err != nil {
+				return err
+			}
+			if err := os.MkdirAll(*asmdir, 0o755); err != nil {
+				return err
+			}
+			ra := r.fork()
+			for k := 0; k < *nasm; k++ {
+				if err := c16fAsmFile(*asmdir, k, 12+ra.intn(12), ra, o, st); err != nil {
+					return err
+				}
 			}
 		}
 		if *cpu > 0 {
